@@ -698,6 +698,49 @@ Definition string_to_time (s : bytes) : option N :=
   | _ => None
   end.
 
+(* hexadecimal numbers: fmt %x / %X with a fixed width, strconv.ParseUint(s, 16, _) *)
+Definition hexb (w : bytes) : bytes := bytes_of_string (hex w).
+Definition is_hexdigit (c : N) : bool :=
+  is_digit c || ((97 <=? c) && (c <=? 102)) || ((65 <=? c) && (c <=? 70)).
+Definition hexval (c : N) : N := unhexdigit (ascii_of_N c).
+Fixpoint hexnum (s : bytes) (acc : N) : N :=
+  match s with [] => acc | c :: r => hexnum r (acc * 16 + hexval c) end.
+(* at most 16 digits here, so the 64-bit range is never exceeded *)
+Definition parse_hex (s : bytes) : option N :=
+  match s with [] => None | _ => if forallb is_hexdigit s then Some (hexnum s 0) else None end.
+(* types.go euiToString: octet pairs joined by a dash (k = 6 or 8 octets) *)
+Definition eui_to_string (k : nat) (n : N) : bytes :=
+  join_bytes [45] (map (fun b => hexb [b]) (if (k =? 6)%nat then u48 n else u64 n)).
+(* EUI48.parse / EUI64.parse: the digits when the token is k pairs with a dash after each but the last *)
+Fixpoint eui_digits (k : nat) (s : bytes) : option bytes :=
+  match k with
+  | O => None
+  | S k' =>
+    match k' with
+    | O => match s with [a; b] => Some [a; b] | _ => None end
+    | _ => match s with
+           | a :: b :: c :: r => if c =? 45 then match eui_digits k' r with Some d => Some (a :: b :: d) | None => None end
+                                 else None
+           | _ => None
+           end
+    end
+  end.
+Definition parse_eui (k : nat) (s : bytes) : option N :=
+  match eui_digits k s with Some d => parse_hex d | None => None end.
+(* NID.String / L64.String: four groups of four digits joined by a colon *)
+Definition nodeid_to_string (up : bool) (n : N) : bytes :=
+  match u64 n with
+  | [a; b; c; d; e; f; g; h] =>
+    let x := hexb [a; b] ++ [58] ++ hexb [c; d] ++ [58] ++ hexb [e; f] ++ [58] ++ hexb [g; h] in
+    if up then upper_bytes x else x
+  | _ => []
+  end.
+(* scan.go stringToNodeID: at least 19 octets, one of the three colons in place *)
+Definition parse_nodeid (s : bytes) : option N :=
+  if (length s <? 19)%nat then None
+  else if negb (nth 4 s 0 =? 58) && negb (nth 9 s 0 =? 58) && negb (nth 14 s 0 =? 58) then None
+  else parse_hex (firstn 4 s ++ firstn 4 (skipn 5 s) ++ firstn 4 (skipn 10 s) ++ firstn 4 (skipn 15 s)).
+
 (* ------------------------------------------------------------------ *)
 (* 7. regular RDATA: a presentation grammar                            *)
 (* ------------------------------------------------------------------ *)
@@ -724,6 +767,8 @@ Inductive pfield :=
 | P_mnem (tbl : mtable) (bits : N)  (* CERT type and algorithm: mnemonic or decimal / exact mnemonic, else ParseUint *)
 | P_algnum               (* RRSIG algorithm: decimal / ParseUint, else exact mnemonic *)
 | P_type                 (* RRSIG type covered: Type.String / mnemonic in any case, else TYPEnnn *)
+| P_eui (k : nat)         (* EUI48 / EUI64: euiToString / dashed pairs, ParseUint base 16 *)
+| P_nodeid (up : bool)   (* NID / L64: %0.16x, %0.16X in four groups / stringToNodeID *)
 | P_time.                (* RRSIG expiration, inception: TimeToString / StringToTime, else ParseUint 32 *)
 
 (* field values as the Go structs hold them *)
@@ -774,6 +819,8 @@ Definition present_field (f : pfield) (v : pval) : bytes :=
   | P_algnum, V_int n => dec_bytes n
   | P_type, V_int t => show_type t
   | P_time, V_time now t => time_to_string now t
+  | P_eui k, V_int n => eui_to_string k n
+  | P_nodeid up, V_int n => nodeid_to_string up n
   | _, _ => []
   end.
 
@@ -902,6 +949,8 @@ Definition read_single (f : pfield) (ts : list tok) : res (pval * list tok) :=
                         then match type_to_int text with Some t => Ok (V_int t) | None => Err "type" end
                         else Err "type"
               end
+            | P_eui k => match parse_eui k text with Some n => Ok (V_int n) | None => Err "eui" end
+            | P_nodeid _ => match parse_nodeid text with Some n => Ok (V_int n) | None => Err "nodeid" end
             | P_time =>
               match string_to_time text with
               | Some t => Ok (V_int t)
@@ -961,7 +1010,8 @@ Definition meaning (f : pfield) (v : pval) : option mval :=
   | P_salt _, V_sized _ h => Some (M_octets (unhex (string_of_bytes h)))
   | P_b32, V_sized _ w => Some (M_octets w)
   | P_hexsplit, V_word h => Some (M_octets (unhex (string_of_bytes h)))
-  | P_mnem _ _, V_int n | P_algnum, V_int n | P_type, V_int n | P_time, V_int n => Some (M_int n)
+  | P_mnem _ _, V_int n | P_algnum, V_int n | P_type, V_int n | P_time, V_int n
+  | P_eui _, V_int n | P_nodeid _, V_int n => Some (M_int n)
   | P_time, V_time _ t => Some (M_int t)
   | _, _ => None
   end.
@@ -1005,6 +1055,10 @@ Definition playout (t : N) : option (list pfield) :=
   else if t =? 51 then Some [P_uint 8; P_uint 8; P_uint 16; P_salt false]
   else if t =? 50 then Some [P_uint 8; P_uint 8; P_uint 16; P_salt true; P_b32; P_types]
   else if t =? 37 then Some [P_mnem MCert 16; P_uint 16; P_mnem MAlg 8; P_b64]
+  else if t =? 108 then Some [P_eui 6]
+  else if t =? 109 then Some [P_eui 8]
+  else if t =? 104 then Some [P_uint 16; P_nodeid false]
+  else if t =? 106 then Some [P_uint 16; P_nodeid true]
   else if (t =? 46) || (t =? 24)
   then Some [P_type; P_algnum; P_uint 8; P_uint 32; P_time; P_time; P_uint 16; P_name; P_b64]
   else None.
